@@ -32,7 +32,7 @@ PROVED_FAMILIES = ['plurality', 'ha_d_hondt', 'ha_sainte_lague', 'ha_imperiali',
                    'condorcet_winner', 'smith_set', 'schwartz_set', 'benham', 'tideman_alternative',
                    'approval_pav', 'approval_spav',
                    'score_mean', 'score_sum0', 'score_median', 'majority_judgment_plus', 'star', 'bucklin',
-                   'oklahoma', 'baldwin', 'stv_gregory_hare', 'stv_gregory_hare_strict', 'stv_gregory_imperiali',
+                   'oklahoma', 'bucklin_whole', 'oklahoma_whole', 'baldwin', 'stv_gregory_hare', 'stv_gregory_hare_strict', 'stv_gregory_imperiali',
                    'pure_proportionality', 'pure_proportionality_constrained']
 PROVED_FAMILIES += [f + '_sparse' for f in PROVED_FAMILIES if f.startswith('condorcet_') or f in ('smith_set', 'schwartz_set')]
 # proved for a part of the family's parameter space only: the rest stays listed as unproved
@@ -326,7 +326,7 @@ def generate(rng, tier):
     # Bucklin/Oklahoma: the first choice of exactly half of the voters, everybody's second choice wins in round 2;
     # STV-Gregory-Hare: a candidate holding exactly the Hare quota on first preferences
     for f in F:
-        if f.name in ('bucklin', 'oklahoma', 'stv_gregory_hare', 'stv_gregory_hare_strict', 'stv_gregory_imperiali'):
+        if f.name in ('bucklin', 'oklahoma', 'bucklin_whole', 'oklahoma_whole', 'stv_gregory_hare', 'stv_gregory_hare_strict', 'stv_gregory_imperiali'):
             for t in range(16 if tier == 'quick' else 160):
                 h = rng.randint(2, 9)
                 x = rng.randint(1, h - 1)
@@ -534,8 +534,8 @@ def model_line(case):
                     'form': 'selector', 'votes': enc_stv(prof), 'n': case['n'], 'prev': [], 'max': [], 'draws': []}
         if f == 'bucklin' and case['n'] == 1 and 'one_seat' in case.get('_tags', ()):
             return {'op': 'c11_bucklin', 'votes': enc_ranked(prof), 'split': True}      # the one-seat model of C17
-        if f in ('bucklin', 'oklahoma'):                                                 # the n-seat model of the C08 extension
-            return {'op': 'preference_addition', 'votes': prof, 'n': case['n'], 'coef': f, 'split': True}
+        if f in ('bucklin', 'oklahoma', 'bucklin_whole', 'oklahoma_whole'):                                                 # the n-seat model of the C08 extension
+            return {'op': 'preference_addition', 'votes': prof, 'n': case['n'], 'coef': f.split('_')[0], 'split': not f.endswith('_whole')}
         if f == 'baldwin':
             return {'op': 'baldwin', 'votes': prof, 'n': case['n']}
         if f == 'benham':
@@ -574,7 +574,7 @@ def model_line(case):
 
 def compare(case, iobs, mobs):
     got = iobs['scaled'] if case['op'] in ('scale', 'scale_qd') else iobs
-    if case['op'] == 'scale' and case['family'] in ('bucklin', 'oklahoma', 'baldwin') and \
+    if case['op'] == 'scale' and case['family'] in ('bucklin', 'oklahoma', 'bucklin_whole', 'oklahoma_whole', 'baldwin') and \
             any(isinstance(it, list) for b, _ in case['prof'] for it in b):
         # shared ranks: the model iterates them in protocol order, Python in frozenset order - the order among equally placed
         # individually elected winners follows it (C10's subject): compare the elected set and the tie places
